@@ -1,0 +1,27 @@
+//go:build verif
+
+// Contracts for package enc, checked by /verif (govc). Comment-only.
+package enc
+
+//@ func (*boxed).OpenWithNonce
+//@   requires s != nil
+//@   ensures err == nil ==> result0 != nil
+
+//@ func (*boxed).SealWithNonce
+//@   requires s != nil
+//@   ensures err == nil ==> result0 != nil
+
+//@ func (*boxed).DeriveNonce
+//@   requires s != nil
+//@   ensures err == nil ==> len(result0) == 24
+//@   loop 0
+//@     invariant 0 <= i && i <= 24 && len(nonce) == 24 && len(sum) >= 32
+
+//@ func (*boxed).Open
+//@   requires s != nil
+
+//@ func (*boxed).Seal
+//@   requires s != nil
+
+//@ func NewSecretbox
+//@   ensures err == nil ==> result0 != nil
